@@ -51,6 +51,122 @@ def filePreamble : Kind := .struct [
   .mk FilePreambleMapIndex.private_version (.uint 8) false,
   .mk FilePreambleMapIndex.block_parameters (.arr blockParameters) true]
 
+/-! ### the block tree (src/block.{h,cpp}) -/
+
+def timestamp : Kind := .arr (.uint 64)      -- [secs, ticks]; the 2-element check of `Timestamp::read` is outside the schema
+
+def blockPreamble : Kind := .struct [
+  .mk BlockPreambleMapIndex.earliest_time timestamp false,
+  .mk BlockPreambleMapIndex.block_parameters_index (.uint 32) false]
+
+def blockStatistics : Kind := .struct [
+  .mk BlockStatisticsMapIndex.processed_messages (.uint 32) false,
+  .mk BlockStatisticsMapIndex.qr_data_items (.uint 32) false,
+  .mk BlockStatisticsMapIndex.unmatched_queries (.uint 32) false,
+  .mk BlockStatisticsMapIndex.unmatched_responses (.uint 32) false,
+  .mk BlockStatisticsMapIndex.discarded_opcode (.uint 32) false,
+  .mk BlockStatisticsMapIndex.malformed_items (.uint 32) false]
+
+def classType : Kind := .struct [
+  .mk ClassTypeMapIndex.type (.uint 16) true,
+  .mk ClassTypeMapIndex.class_ (.uint 16) true]
+
+def queryResponseSignature : Kind := .struct [
+  .mk QueryResponseSignatureMapIndex.server_address_index (.uint 32) false,
+  .mk QueryResponseSignatureMapIndex.server_port (.uint 16) false,
+  .mk QueryResponseSignatureMapIndex.qr_transport_flags (.uint 8) false,
+  .mk QueryResponseSignatureMapIndex.qr_type (.uint 8) false,
+  .mk QueryResponseSignatureMapIndex.qr_sig_flags (.uint 8) false,
+  .mk QueryResponseSignatureMapIndex.query_opcode (.uint 8) false,
+  .mk QueryResponseSignatureMapIndex.qr_dns_flags (.uint 16) false,
+  .mk QueryResponseSignatureMapIndex.query_rcode (.uint 16) false,
+  .mk QueryResponseSignatureMapIndex.query_classtype_index (.uint 32) false,
+  .mk QueryResponseSignatureMapIndex.query_qdcount (.uint 16) false,
+  .mk QueryResponseSignatureMapIndex.query_ancount (.uint 32) false,
+  .mk QueryResponseSignatureMapIndex.query_nscount (.uint 16) false,
+  .mk QueryResponseSignatureMapIndex.query_arcount (.uint 16) false,
+  .mk QueryResponseSignatureMapIndex.query_edns_version (.uint 8) false,
+  .mk QueryResponseSignatureMapIndex.query_udp_size (.uint 16) false,
+  .mk QueryResponseSignatureMapIndex.query_opt_rdata_index (.uint 32) false,
+  .mk QueryResponseSignatureMapIndex.response_rcode (.uint 16) false]
+
+def question : Kind := .struct [
+  .mk QuestionMapIndex.name_index (.uint 32) true,
+  .mk QuestionMapIndex.classtype_index (.uint 32) true]
+
+def rr : Kind := .struct [
+  .mk RrMapIndex.name_index (.uint 32) true,
+  .mk RrMapIndex.classtype_index (.uint 32) true,
+  .mk RrMapIndex.ttl (.uint 32) false,
+  .mk RrMapIndex.rdata_index (.uint 32) false]
+
+def malformedMessageData : Kind := .struct [
+  .mk MalformedMessageDataMapIndex.server_address_index (.uint 32) false,
+  .mk MalformedMessageDataMapIndex.server_port (.uint 16) false,
+  .mk MalformedMessageDataMapIndex.mm_transport_flags (.uint 8) false,
+  .mk MalformedMessageDataMapIndex.mm_payload .bstr false]
+
+def blockTables : Kind := .struct [
+  .mk BlockTablesMapIndex.ip_address (.arr .bstr) false,
+  .mk BlockTablesMapIndex.classtype (.arr classType) false,
+  .mk BlockTablesMapIndex.name_rdata (.arr .bstr) false,
+  .mk BlockTablesMapIndex.qr_sig (.arr queryResponseSignature) false,
+  .mk BlockTablesMapIndex.qlist (.arr (.arr (.uint 32))) false,
+  .mk BlockTablesMapIndex.qrr (.arr question) false,
+  .mk BlockTablesMapIndex.rrlist (.arr (.arr (.uint 32))) false,
+  .mk BlockTablesMapIndex.rr (.arr rr) false,
+  .mk BlockTablesMapIndex.malformed_message_data (.arr malformedMessageData) false]
+
+def responseProcessingData : Kind := .struct [
+  .mk ResponseProcessingDataMapIndex.bailiwick_index (.uint 32) false,
+  .mk ResponseProcessingDataMapIndex.processing_flags (.uint 8) false]
+
+def queryResponseExtended : Kind := .struct [
+  .mk QueryResponseExtendedMapIndex.question_index (.uint 32) false,
+  .mk QueryResponseExtendedMapIndex.answer_index (.uint 32) false,
+  .mk QueryResponseExtendedMapIndex.authority_index (.uint 32) false,
+  .mk QueryResponseExtendedMapIndex.additional_index (.uint 32) false]
+
+/-- members in the order `QueryResponse::write` emits them (the private negative keys last) -/
+def queryResponse : Kind := .struct [
+  .mk QueryResponseMapIndex.time_offset (.uint 64) false,
+  .mk QueryResponseMapIndex.client_address_index (.uint 32) false,
+  .mk QueryResponseMapIndex.client_port (.uint 16) false,
+  .mk QueryResponseMapIndex.transaction_id (.uint 16) false,
+  .mk QueryResponseMapIndex.qr_signature_index (.uint 32) false,
+  .mk QueryResponseMapIndex.client_hoplimit (.uint 8) false,
+  .mk QueryResponseMapIndex.response_delay .int64 false,
+  .mk QueryResponseMapIndex.query_name_index (.uint 32) false,
+  .mk QueryResponseMapIndex.query_size (.uint 64) false,
+  .mk QueryResponseMapIndex.response_size (.uint 64) false,
+  .mk QueryResponseMapIndex.response_processing_data responseProcessingData false,
+  .mk QueryResponseMapIndex.query_extended queryResponseExtended false,
+  .mk QueryResponseMapIndex.response_extended queryResponseExtended false,
+  .mk QueryResponseMapIndex.asn .tstr false,
+  .mk QueryResponseMapIndex.country_code .tstr false,
+  .mk QueryResponseMapIndex.round_trip_time .int64 false]
+
+def addressEventCount : Kind := .struct [
+  .mk AddressEventCountMapIndex.ae_type (.uint 8) true,
+  .mk AddressEventCountMapIndex.ae_code (.uint 8) false,
+  .mk AddressEventCountMapIndex.ae_address_index (.uint 32) true,
+  .mk AddressEventCountMapIndex.ae_transport_flags (.uint 8) false,
+  .mk AddressEventCountMapIndex.ae_count (.uint 64) true]
+
+def malformedMessage : Kind := .struct [
+  .mk MalformedMessageMapIndex.time_offset (.uint 64) false,
+  .mk MalformedMessageMapIndex.client_address_index (.uint 32) false,
+  .mk MalformedMessageMapIndex.client_port (.uint 16) false,
+  .mk MalformedMessageMapIndex.message_data_index (.uint 32) false]
+
+def block : Kind := .struct [
+  .mk BlockMapIndex.block_preamble blockPreamble true,
+  .mk BlockMapIndex.block_statistics blockStatistics false,
+  .mk BlockMapIndex.block_tables blockTables false,
+  .mk BlockMapIndex.query_responses (.arr queryResponse) false,
+  .mk BlockMapIndex.address_event_counts (.arr addressEventCount) false,
+  .mk BlockMapIndex.malformed_messages (.arr malformedMessage) false]
+
 /-- generated obligation: the widths written above are those of the C++ members -/
 def widthOf (name : String) : Option Nat := (memberTable.find? (·.1 == name)).map (fun e => e.2.1 * 8)
 
@@ -59,5 +175,52 @@ theorem widths_match :
     widthOf "StorageHints.rr_hints" = some 8 ∧ widthOf "StorageHints.other_data_hints" = some 8 ∧
     widthOf "StorageParameters.ticks_per_second" = some 64 ∧ widthOf "StorageParameters.max_block_items" = some 64 := by
   decide +kernel
+
+/-- the integer members of the block tree and the width the schema gives them -/
+def blockWidths : List (String × Nat) := [
+  ("BlockPreamble.block_parameters_index", 32),
+  ("BlockStatistics.processed_messages", 32), ("BlockStatistics.qr_data_items", 32), ("BlockStatistics.unmatched_queries", 32),
+  ("BlockStatistics.unmatched_responses", 32), ("BlockStatistics.discarded_opcode", 32), ("BlockStatistics.malformed_items", 32),
+  ("ClassType.type", 16), ("ClassType.class_", 16),
+  ("QueryResponseSignature.server_address_index", 32), ("QueryResponseSignature.server_port", 16),
+  ("QueryResponseSignature.qr_transport_flags", 8), ("QueryResponseSignature.qr_type", 8), ("QueryResponseSignature.qr_sig_flags", 8),
+  ("QueryResponseSignature.query_opcode", 8), ("QueryResponseSignature.qr_dns_flags", 16), ("QueryResponseSignature.query_rcode", 16),
+  ("QueryResponseSignature.query_classtype_index", 32), ("QueryResponseSignature.query_qdcount", 16),
+  ("QueryResponseSignature.query_ancount", 32), ("QueryResponseSignature.query_nscount", 16), ("QueryResponseSignature.query_arcount", 16),
+  ("QueryResponseSignature.query_edns_version", 8), ("QueryResponseSignature.query_udp_size", 16),
+  ("QueryResponseSignature.query_opt_rdata_index", 32), ("QueryResponseSignature.response_rcode", 16),
+  ("Question.name_index", 32), ("Question.classtype_index", 32),
+  ("RR.name_index", 32), ("RR.classtype_index", 32), ("RR.ttl", 32), ("RR.rdata_index", 32),
+  ("MalformedMessageData.server_address_index", 32), ("MalformedMessageData.server_port", 16), ("MalformedMessageData.mm_transport_flags", 8),
+  ("ResponseProcessingData.bailiwick_index", 32), ("ResponseProcessingData.processing_flags", 8),
+  ("QueryResponseExtended.question_index", 32), ("QueryResponseExtended.answer_index", 32),
+  ("QueryResponseExtended.authority_index", 32), ("QueryResponseExtended.additional_index", 32),
+  ("Timestamp.m_secs", 64), ("Timestamp.m_ticks", 64),
+  ("QueryResponse.client_address_index", 32), ("QueryResponse.client_port", 16), ("QueryResponse.transaction_id", 16),
+  ("QueryResponse.qr_signature_index", 32), ("QueryResponse.client_hoplimit", 8), ("QueryResponse.response_delay", 64),
+  ("QueryResponse.query_name_index", 32), ("QueryResponse.query_size", 64), ("QueryResponse.response_size", 64),
+  ("QueryResponse.round_trip_time", 64),
+  ("AddressEventCount.ae_type", 8), ("AddressEventCount.ae_code", 8), ("AddressEventCount.ae_address_index", 32),
+  ("AddressEventCount.ae_transport_flags", 8), ("AddressEventCount.ae_count", 64),
+  ("MalformedMessage.client_address_index", 32), ("MalformedMessage.client_port", 16), ("MalformedMessage.message_data_index", 32),
+  ("StorageParameters.storage_flags", 8), ("StorageParameters.client_address_prefix_ipv4", 8), ("StorageParameters.client_address_prefix_ipv6", 8),
+  ("StorageParameters.server_address_prefix_ipv4", 8), ("StorageParameters.server_address_prefix_ipv6", 8),
+  ("CollectionParameters.query_timeout", 64), ("CollectionParameters.skew_timeout", 64), ("CollectionParameters.snaplen", 64)]
+
+/-- generated obligation: every width of `blockWidths` is the size of the C++ member (translator output) -/
+theorem block_widths_match : blockWidths.all (fun e => widthOf e.1 == some e.2) = true := by decide +kernel
+
+/-- only `response_delay` and `round_trip_time` are signed (`read_integer`), as in the C++ -/
+theorem signed_members : (memberTable.filter (fun e => e.2.2)).map (·.1) =
+    ["QueryResponse.response_delay", "QueryResponse.round_trip_time",
+     "GenericQueryResponse.response_delay", "GenericQueryResponse.round_trip_time"] := by decide +kernel
+
+/-- the schemas are well-formed: no struct lists a key twice (checked for every struct of both trees) -/
+def keysNodup : Kind → Bool
+  | .struct fs => (fs.map (·.key)).Nodup
+  | _ => true
+theorem schemas_keys_nodup : [storageHints, storageParameters, collectionParameters, blockParameters, filePreamble, blockPreamble,
+    blockStatistics, classType, queryResponseSignature, question, rr, malformedMessageData, blockTables, responseProcessingData,
+    queryResponseExtended, queryResponse, addressEventCount, malformedMessage, block].all keysNodup = true := by decide +kernel
 
 end CdnsVerif.Model.Structs
